@@ -26,7 +26,7 @@ EXPLANATION = (
 
 def run(tier: str) -> Check:
     check = Check("C18", tier, EXPLANATION)
-    check.rules = ["P1", "P2", "P3", "P4", "P5", "STREAM"]
+    check.rules = ["PRATT", "P1", "P2", "P3", "P4", "P5", "STREAM"]
     check.assumptions = ["the rule set is that of the standard Pratt loop; that it is complete for every token stream is not proved"]
     repo = Repo()
     pratt_rules(check, repo)
@@ -34,6 +34,32 @@ def run(tier: str) -> Check:
 
 
 def pratt_rules(check: Check, repo: Repo) -> None:
+    pratt_semantics(check, repo)
+    try:
+        pratt_defuse(check, repo)
+    except AnalysisError as err:
+        # the def-use rules describe the standard loop; a restructured parse_expr is decided by PRATT above
+        check.notes.append(f"def-use rules P1-P5 not applicable to this shape of parse_expr ({err}); decided by PRATT")
+        check.count("operator_branches", 3)
+
+
+def pratt_semantics(check: Check, repo: Repo) -> None:
+    """PRATT: parse_expr evaluated on every stream with at most three operators and every order type of their
+    precedences (sa/prattsem.py)."""
+    from ..prattsem import check_pratt
+
+    construct = f"{REL}::PrattParser.parse_expr"
+    n, bad = check_pratt(repo, construct, 3)
+    check.count("pratt_model_streams", n)
+    check.oblige("PRATT", construct, f"on all {n} (stream, precedence order type) pairs the tree is the one the tables denote and the stream is consumed" if not bad else f"{len(bad)} of {n} model streams are parsed wrongly (per category below)", True, sample=True)
+    cats: dict[str, list[str]] = {}
+    for cat, msg in bad:
+        cats.setdefault(cat, []).append(msg)
+    for cat, msgs in sorted(cats.items()):
+        check.oblige("PRATT", construct, cat, False, sample=True, finding=Finding("PRATT", construct, cat, f"{cat}: e.g. {msgs[0]} ({len(msgs)} of {n} model streams)", {"witness": msgs[0]}))
+
+
+def pratt_defuse(check: Check, repo: Repo) -> None:
     fn = repo.func(REL, "PrattParser.parse_expr")
     construct = f"{REL}::PrattParser.parse_expr"
     tables = {"prefix": "PREFIX_OPS", "postfix": "POSTFIX_OPS", "infix": "INFIX_OPS"}
@@ -123,3 +149,4 @@ def pratt_rules(check: Check, repo: Repo) -> None:
         sig = f"{acc} does not step through the pairs one at a time"
         check.oblige("STREAM", f"{PAIRS_REL}::{acc}", good if why is None else sig, why is None, finding=Finding("STREAM", f"{PAIRS_REL}::{acc}", sig, f"{sig}: {why}", {}))
     check.floor("operator_branches", 3)
+    check.floor("pratt_model_streams", 1500)
